@@ -258,7 +258,7 @@ func mkOps(cfg Config) []opDef {
 
 func configs() []Config {
 	var out []Config
-	for _, t := range []float64{0, 0.5, 1, 2, 3, 1000} {
+	for _, t := range []float64{0, 0.5, 1, 1.5, 2, 2.5, 3, 1000} { // fractional thresholds: the spacing is batch/threshold, not batch/floor(threshold)
 		// 5000 ms: above 2^32 ns, where a millisecond-to-nanosecond conversion done in 32 bits wraps
 		for _, iv := range []uint32{1000, 10, 0, 5000} {
 			for _, mq := range []uint32{0, 1, 500, 1000, 5000} {
